@@ -1,0 +1,14 @@
+//go:build !verif
+
+package tengo
+
+// Verification hooks are compiled out unless the build tag "verif" is set.
+const verifOn = false
+
+var (
+	verifStep     func(v *VM)
+	verifRunStart func(v *VM)
+	verifRunEnd   func(v *VM)
+	verifGate     func(site string)
+	verifNoDCE    bool
+)
